@@ -8,21 +8,31 @@ HERE="$(cd "$(dirname "$0")" && pwd)"
 HARNESS="$(dirname "$HERE")"
 RUNS="${1:-1000000}"
 SEED="${2:-${VERIF_SEED:-1}}"
-BIN="$HARNESS/target-pv-decode/release/pv-decode"
+BIN="$HARNESS/target/release/pv-decode"
 export CARGO_NET_OFFLINE=true
-( cd "$HARNESS" && CARGO_TARGET_DIR="$HARNESS/target-pv-decode" cargo build --release --offline -p pv-decode >/dev/null 2>&1 ) || { echo "pv-decode does not build" >&2; exit 2; }
+( cd "$HARNESS" && cargo build --release --offline -p pv-decode >/dev/null 2>&1 ) || { echo "pv-decode does not build" >&2; exit 2; }
 cargo +nightly fuzz build --fuzz-dir "$HERE" >"$HERE/target-build.log" 2>&1 || { echo "fuzz targets do not build (see $HERE/target-build.log)" >&2; exit 2; }
 CORPUS="$HERE/target/corpus"; ART="$HERE/target/artifacts"
 rm -rf "$CORPUS"; mkdir -p "$ART"
 PV_DECODE_WRITE_CORPUS="$CORPUS" "$BIN" || exit 2
 rc=0
 for T in block tx address n2n_msg n2c_msg; do
+  (
   MAXLEN=4096; [ "$T" = block ] && MAXLEN=200000; [ "$T" = tx ] && MAXLEN=20000
   LOG="$HERE/target/$T.log"
   "$HERE/target/x86_64-unknown-linux-gnu/release/$T" "$CORPUS/$T" -runs="$RUNS" -seed="$SEED" -max_len="$MAXLEN" \
       -len_control=0 -rss_limit_mb=4096 -timeout=20 -artifact_prefix="$ART/C09-$T-" -print_final_stats=1 >"$LOG" 2>&1
-  r=$?
+  echo $? >"$HERE/target/$T.rc"
+  ) &
+done
+wait
+for T in block tx address n2n_msg n2c_msg; do
+  LOG="$HERE/target/$T.log"; r=$(cat "$HERE/target/$T.rc" 2>/dev/null || echo 99)
   echo "$T: exit $r, $(grep -E 'stat::number_of_executed_units' "$LOG" | tr -d '\n') $(grep -E '^#[0-9]+.*DONE' "$LOG" | tail -1 | cut -c1-80)"
-  [ $r -ne 0 ] && { rc=1; grep -E 'NEW panic|ERROR|SUMMARY|deadly' "$LOG" | head -5; }
+  if [ "$r" -ne 0 ]; then
+    grep -E 'NEW panic|ERROR|SUMMARY|deadly' "$LOG" | head -5
+    # a libFuzzer timeout / out-of-memory report is a budget matter (inconclusive), not a panic
+    if grep -qE 'ERROR: libFuzzer: (timeout|out-of-memory)' "$LOG"; then [ $rc -eq 0 ] && rc=2; else rc=1; fi
+  fi
 done
 exit $rc
